@@ -45,7 +45,12 @@ def parseOp (line : String) : Option Op :=
   | ["putAll"] => some (.putAll (idx parsePut .zero))
   | ["vardAll"] => some (.vardAll (idx parseVard (.noData 0)))
   | ["putIndep", r, e] => some (.putIndep (r.toNat?.getD 0) (e.toNat?.getD 0))
-  | ["iput", r, id, isRec, e] => some (.iput (r.toNat?.getD 0) (id.toNat?.getD 0) (isRec == "1") (e.toNat?.getD 0))
+  | ["iput", r, id, isRec, e] =>
+      -- keys of the sorted lead list: in the harness's schema the fixed-size variable begins before the record
+      -- variable, and a record request's offset is at or behind the begin of the record variable
+      let isR := isRec == "1"
+      let en := e.toNat?.getD 0
+      some (.iput (r.toNat?.getD 0) (id.toNat?.getD 0) isR en (if isR then 1 else 0) (if isR then en else 0))
   | ["waitAll"] => some (.waitAll (idx parseSel (.ids [])))
   | "wait" :: r :: sel => some (.wait (r.toNat?.getD 0) (parseSel sel))
   | ["fillRec"] => some (.fillRec (idx (fun ws => natOf ws.head? 0) 0))
